@@ -116,6 +116,11 @@ func genCase(rt *rapid.T) Case {
 		g.GlobalVars = append(g.GlobalVars, name)
 		c.Defs = append(c.Defs, fmt.Sprintf("(defvar %s %d)", name, rapid.IntRange(-2, 4).Draw(rt, "ginit")))
 	}
+	if rapid.IntRange(0, 2).Draw(rt, "constant") == 0 {
+		// a constant the functions read: defined before or after them like everything else
+		g.GlobalConsts = append(g.GlobalConsts, "+zg8+")
+		c.Defs = append(c.Defs, fmt.Sprintf("(defconstant +zg8+ %d)", rapid.IntRange(-2, 4).Draw(rt, "cinit")))
+	}
 	var sigs []proggen.FunSig
 	for i := 1; i <= nfun; i++ {
 		sigs = append(sigs, proggen.FunSig{Name: fmt.Sprintf("zf%d", i), Arity: 1 + rapid.IntRange(0, 1).Draw(rt, "arity")})
@@ -253,6 +258,7 @@ func slipRun(c Case, perm []int, mode string) (out runResult) {
 				seen[name] = true
 				_ = ev.Try(func() slip.Object {
 					if strings.HasPrefix(name, "zg") {
+						slip.CurrentPackage.Remove("+" + name + "+")
 						slip.CurrentPackage.Remove("*" + name + "*")
 					} else {
 						slip.CurrentPackage.Undefine(name)
